@@ -19,7 +19,7 @@ THEOREMS = ["C12_add_is_preorder", "C12_forest_is_declared_tree", "C12_valid_all
             "C12_interleaving_independent", "C12_script_state", "C12_stage_barrier", "C12_stage_in_preorder",
             "C12_start_once_per_declared_stage", "C12_start_calls_declared", "C12_end_once_per_module",
             "C12_dup_and_orphan_rejected", "C12_builder_verdicts", "C12_tree_add_panic_unreachable",
-            "C12_path_laws"]
+            "C12_path_laws", "C12_parent_lookup", "C12_child_lookup", "C12_object_path"]
 QUICK_N = 2500; THOROUGH_N = 150000
 RULE = ("scripts drawn from a structured generator: a random module tree (depth <= 5, fan-out <= 4, names from a pool with"
         " shared textual prefixes `a`,`ab`,`a-b`,`abc` and non-ASCII `é`,`日本`,`😀`), inserted in a random VALID order"
@@ -42,7 +42,8 @@ CLAIM = dict(
          " vector is independent of how insertions of different parents are interleaved; duplicates and orphans panic in every"
          " reachable state and nothing else does (ModuleTree::add's own panic is unreachable); the at_sim_start log is stage-"
          "monotone, each module receives exactly stages 0..n-1 once each in order, within a stage calls follow the pre-order;"
-         " at_sim_end visits every module exactly once; ObjectPath laws parent(appended p n)=p, name(appended p n)=n,"
+         " at_sim_end visits every module exactly once; parent()/child()/path() of every module agree with the declared tree;"
+         " ObjectPath laws parent(appended p n)=p, name(appended p n)=n,"
          " from(as_str p)=p for dot-free non-empty names over arbitrary bytes. The model is tied to the des crate by differential"
          " runs (extracted model vs a real Sim built, run and queried through the public API) on every invocation, plus an"
          " independent monitor stating C12 on the implementation's output.",
